@@ -11,6 +11,7 @@ def _(c):
                'a strict decoder may raise UnicodeDecodeError (C18.4: excluded by the reader precondition)')
     c.returns('str')
     c.raises('KeyboardInterrupt', when=None, exact=False)
+    c.raises('UnicodeDecodeError', when='not total_decoder(self)', exact=False)
     c.effect('if input_pos() < len(input_lines()):\n    ext_event(7, input_lines()[input_pos()])\n    advance_input()\n    bump("n_read")')
     c.ensures('result == (old(input_lines()[input_pos()]) if old(input_pos() < len(input_lines())) else "")', 'next_line_or_empty_at_end')
     c.epoch_preserving()
@@ -76,8 +77,10 @@ def _gen_parse_all(rnd):
 
 @contract(PARSER + '.parse_all')
 def _(c):
-    c.prop('C08')
+    c.prop('C08', 'C18')
     c.types(input_file='Obj("io.IOBase")')
+    c.raises('UnicodeDecodeError', when='not total_decoder(input_file)', exact=False)
+    c.raise_keeps_heap = False
     c.let('e0', 'len(ext_trace())')
     c.let('p0', 'input_pos()')
     c.let('r0', 'n_read()')
@@ -111,8 +114,10 @@ def _(c): c.inline()
 
 @contract('backends.libwayland_debug_output.parse.into_sink')
 def _(c):
-    c.prop('C08', 'C04')
+    c.prop('C08', 'C04', 'C18')
     c.types(input_file='Obj("io.IOBase")')
+    c.raises('UnicodeDecodeError', when='not total_decoder(input_file)', exact=False)
+    c.raise_keeps_heap = False
     c.let('r0', 'n_read()')
     c.let('f0', 'n_fwd()')
     c.let('u0', 'n_unp()')
